@@ -26,6 +26,7 @@ def jobs(tier):
         mk('C04', 'other_running/yield/AB', S.two_bus_await('other_running', ('A', 'B'), yield_first=True), witnesses=W),
         mk('C04', 'child/depth3', S.child('await', k=0, depth=3, actor=False), witnesses=W),
         mk('C04', 'deep_ff_chain', S.deep_ff_chain(), witnesses=W),
+        mk('C04', 'child/await/raising_chained', S.child('await', k=0, raising='child_chained', actor=False), witnesses=W),
     ]
     if tier == 'thorough':
         out += [
